@@ -29,6 +29,8 @@ def main():
             ("c20-ticker", {}, 10 if q else 40, True),
             ("c20-journal", {"polls": "3"}, 8 if q else 30, True),
             ("c14", {"requests": "2", "alphabet": "reduced"}, 15 if q else 60, True),
+            ("c14", {"requests": "2", "alphabet": "reduced", "overlap": "1"}, 15 if q else 60, True),
+            ("c19-ips", {"maxlen": "2", "conc": "1"}, 10 if q else 40, True),
             ("c19-counter", {}, 10 if q else 60, False),
         ]),
         (tt_common.build, [("c17a", {"carriers": "2", "fails": "4", "dialends": "1", "closes": "2"}, 15 if q else 90, True), ("c17b-conc", {}, 10 if q else 60, True)]),
@@ -73,8 +75,8 @@ def main():
     # free-running pass (no scheduler): the real-stack harness of C05 tier 2 (Transport.Listen, ServeHTTP, websocketconn,
     # acceptSessions/acceptStreams, turbotunnelMode with real kcp-go and smux) under the race detector
     try:
-        files = {"zz_verif_" + os.path.basename(f): f for f in glob.glob(os.path.join(vlib.VERIF, "harness", "serverlib", "*_test.go"))}
-        eb = enumlib.build("serverlib-enum-race", "server/lib", files, race=True)
+        files = {"zz_verif_c05t2_test.go": os.path.join(vlib.VERIF, "harness", "serverlib", "c05t2_test.go")}
+        eb = enumlib.build("serverlib-t2-race", "server/lib", files, race=True)
         work = os.path.dirname(eb)
         for f in glob.glob(os.path.join(work, "race-c05t2.*")):
             os.remove(f)
